@@ -241,6 +241,19 @@ def c09(case: Dict[str, Any], obs: Dict[str, Any]) -> Optional[str]:
                     return f"reported no candidate for {obs['name']}{spec} although {c[0]}=={c[1]} is offered, readable and satisfies it"
         if obs.get("graph") is not None and k not in {n["key"] for n in obs["graph"]}:
             return f"failure names {obs['name']} which is not in the dependency graph handed back"
+        if obs.get("graph") is not None and k in {n["key"] for n in obs["graph"]} and not case.get("remove_constraints"):
+            # (with remove_constraints the constraint files are taken out of the graph on purpose)
+            # every clause of the named requirement is some requirer's: an edge of the graph handed back carries it
+            have = set()
+            for n in obs["graph"]:
+                for d in n["deps"]:
+                    if d[0] == k and isinstance(d[2], dict):
+                        for c in d[2].get("spec") or []:
+                            have.add(tuple(c))
+            missing = [c for c in spec_clauses if tuple(c) not in have]
+            if missing:
+                return (f"failure names {obs['name']}{spec} but no requirement of the graph handed back accounts for "
+                        f"{','.join(_clause_text(c) for c in missing)}: the failure is not located")
         chains = obs.get("chains")
         if isinstance(chains, list) and chains and chains[0] != "ERR" and obs.get("graph") is not None:
             nodes = {n["key"]: n for n in obs["graph"]}
@@ -261,4 +274,15 @@ def _clause_text(c: Any) -> str:
     return enc440.ROPS[op] + enc440.token_ver_str(vt) + (".*" if wild == "1" else "")
 
 
-ORACLES = {"C01": c01, "C02": c02, "C08": c08, "C09": c09}
+def _single_repository_only(f):
+    """the statement oracles read the candidates from case['universe']; repository stacks (corpus cases of C05) are
+    compared with the model like every other case, their statement is C05's chain oracle"""
+    def g(case, obs):
+        if case.get("stack"):
+            return None
+        return f(case, obs)
+    return g
+
+
+ORACLES = {"C01": _single_repository_only(c01), "C02": _single_repository_only(c02), "C08": _single_repository_only(c08),
+           "C09": _single_repository_only(c09)}
